@@ -2,6 +2,7 @@ mod mathgen;
 mod colors;
 mod macro_cases;
 mod macrotick;
+mod meshgen;
 mod polygen;
 mod filegen;
 mod geomops;
@@ -37,6 +38,11 @@ fn main() {
         }
         "geomops" => for o in geomops::OPS { println!("{} {}", o.0, o.1); },
         "tri" => polygen::emit_tri(seed, n, a.get(4).and_then(|s| s.parse().ok()).unwrap_or(40)),
+        "mesh" => {
+            let lo: i64 = a.get(4).and_then(|s| s.parse().ok()).unwrap_or(400);
+            let hi: i64 = a.get(5).and_then(|s| s.parse().ok()).unwrap_or(409);
+            meshgen::emit(seed, n, lo, hi, a.get(6).and_then(|s| s.parse().ok()).unwrap_or(16))
+        }
         "mathone" => {
             let op: i64 = a[2].parse().unwrap();
             let args: Vec<f64> = a[3..].iter().map(|s| s.parse().unwrap()).collect();
